@@ -36,7 +36,8 @@ impl Scenario for C17 {
 
     fn generate(rng: &mut Rng, tier: Tier, _run: u64) -> Case17 {
         let mut tree = gen_sharing_tree(rng, tier == Tier::Thorough);
-        let cap = if tier == Tier::Thorough { 6000 } else { 700 };
+        // quick: mostly up to 700 nodes; 1 in 200 up to 6000 (paths longer than 63 bytes)
+        let cap = if tier == Tier::Thorough || rng.chance(1, 200) { 6000 } else { 700 };
         while tree.nodes.len() > cap || model::ser_len(&tree) > 8 << 20 {
             let cfg = TreeCfg {
                 max_leaves: cap / 4,
